@@ -22,6 +22,9 @@ class Scenario:
         self.meta: dict[str, Any] = {}
         self.ksks: dict[str, dict[str, Any]] = {}  # name -> {label, tk, alg, entry(dict), placement…}
         self.schema: dict[int, dict[str, list[str]]] = {}
+        # order in which the slots are LISTED in the configuration (a YAML mapping is ordered); None = ascending.
+        # The slot NUMBER decides which bundle an action belongs to, never its position in the listing.
+        self.schema_listing: list[int] | None = None
         self.zsks: list[tuple[str, K.TestKey, int]] = []
         self.layout: list[list[int]] = []
         self.ksk_ttl = 172800
@@ -57,13 +60,19 @@ class Scenario:
         w.plan = dict(self.plan)
         return w
 
+    def schema_listed(self) -> dict[int, dict[str, list[str]]]:
+        """The schema as written in the configuration: the same slot -> actions map, listed in `schema_listing` order."""
+        order = self.schema_listing or sorted(self.schema)
+        assert sorted(order) == sorted(self.schema)
+        return {slot: self.schema[slot] for slot in order}
+
     def config(self) -> Any:
         hsm = {f"hsm{i}": {"module": m["path"], "pin": m.get("pin", "1234")} for i, m in enumerate(self.modules)}
         ksk = {name: k["entry"] for name, k in self.ksks.items()}
         return C.make_config(
             hsm,
             ksk,
-            {"s": self.schema},
+            {"s": self.schema_listed()},
             ksk_policy={"ttl": self.ksk_ttl, "publish_safety": "P10D", "retire_safety": "P10D", "max_signature_validity": "P21D", "min_signature_validity": "P21D", "max_validity_overlap": "P12D", "min_validity_overlap": "P9D"},
             response_policy={"num_bundles": len(self.layout), "validate_signatures": self.validate_signatures},
         )
@@ -172,7 +181,11 @@ def gen_scenario(r: Any, quick: bool = True, n_bundles: int | None = None, force
     sc.zsk_ttl = r.choice([3600, 172800, 0, 86400])
     sc.ksk_ttl = r.choice([172800, 172800, 3600, 7200])
     sc.start = START + timedelta(days=r.randrange(0, 300), seconds=r.choice([0, 0, 1, 43200]))
-    sc.meta = {"n": n, "alg": alg, "nksk": nksk, "nmod": nmod, "nz": nz}
+    if n > 1 and r.random() < 0.5:
+        sc.schema_listing = list(range(1, n + 1))
+        while sc.schema_listing == sorted(sc.schema_listing):
+            r.shuffle(sc.schema_listing)
+    sc.meta = {"n": n, "alg": alg, "nksk": nksk, "nmod": nmod, "nz": nz, "listing": "shuffled" if sc.schema_listing else "ascending"}
     return sc
 
 
@@ -319,6 +332,7 @@ def describe(sc: Scenario) -> dict[str, Any]:
     return {
         "meta": sc.meta,
         "schema": sc.schema,
+        "schema_listing": sc.schema_listing,
         "ksks": {
             n: {kk: (vv if kk not in ("tk",) else {"kind": vv.kind, "bits": getattr(vv, "bits", None), "e": getattr(vv, "e", None), "curve": getattr(vv, "curve", None), "index": key_index(vv)}) for kk, vv in k.items()}
             for n, k in sc.ksks.items()
